@@ -77,6 +77,7 @@ type c12Outcome struct {
 	BodyBytes int      `json:"body_bytes"`
 	BodyHead  string   `json:"body_head,omitempty"`
 	SettleMs  int64    `json:"settle_ms"`
+	AfterAbortMs int64 `json:"after_abort_ms,omitempty"` // how long the handler kept running after the client had gone
 	Slow      bool     `json:"slow,omitempty"` // answered, but later than the idle deadline (body kept flowing)
 	StageOut  string   `json:"stage_out,omitempty"`
 	Dump      string   `json:"dump,omitempty"`
@@ -215,11 +216,11 @@ func (c *c12Child) memoryWatchdog() {
 	for {
 		time.Sleep(100 * time.Millisecond)
 		runtime.ReadMemStats(&ms)
-		if ms.HeapAlloc > 1500<<20 {
+		if ms.HeapAlloc > 3000<<20 {
 			runtime.GC() // garbage of earlier requests does not count
 			runtime.ReadMemStats(&ms)
 		}
-		if ms.HeapAlloc > 1500<<20 {
+		if ms.HeapAlloc > 3000<<20 {
 			c.curMtx.Lock()
 			id := -1
 			if c.current != nil {
@@ -234,6 +235,16 @@ func (c *c12Child) memoryWatchdog() {
 
 func qrynDump() string {
 	var sb strings.Builder
+	if os.Getenv("C12_FULLDUMP") != "" {
+		buf := make([]byte, 1<<20)
+		n := runtime.Stack(buf, true)
+		for _, g := range strings.Split(string(buf[:n]), "\n\n") {
+			if strings.Contains(g, "github.com/metrico/qryn/") {
+				sb.WriteString(g + "\n\n")
+			}
+		}
+		return sb.String()
+	}
 	cs := c12Census()
 	var ks []string
 	for _, v := range cs {
@@ -304,7 +315,8 @@ func (c *c12Child) run(cs *c12Case) c12Outcome {
 		var body []byte
 		if cs.Abort > 0 {
 			body = make([]byte, cs.Abort)
-			n, err := io.ReadFull(resp.Body, body)
+			n, err := io.ReadFull(&progressReader{resp.Body, &progress}, body)
+			conn.Close() // the client goes away NOW (Body.Close below would otherwise read the rest of the body)
 			body = body[:n]
 			if err == nil {
 				res.state = "aborted-by-client"
@@ -353,20 +365,33 @@ wait:
 	}
 	cancel()
 	// settle: every goroutine the request started must terminate, every result set must be closed
+	// (after a client abort the handler keeps writing into the void until the pipeline is exhausted: that is work
+	// still running, not work leaked — the settling clock starts when the handler has returned, hard cap 8 deadlines)
 	t0 := time.Now()
+	tHandler := time.Now()
 	for {
 		now := c12Census()
 		var leaked []string
+		handlerRunning := false
 		for id, top := range now {
 			if _, ok := before[id]; !ok && !c.known[id] {
 				leaked = append(leaked, top)
+				if strings.HasPrefix(top, "reader/controller.") {
+					handlerRunning = true
+				}
 			}
 		}
 		open := db.OpenRows()
 		if len(leaked) == 0 && open == 0 {
 			break
 		}
-		if time.Since(t0) > c.settle {
+		if handlerRunning && time.Since(t0) < 8*c.deadline {
+			tHandler = time.Now()
+			o.AfterAbortMs = time.Since(t0).Milliseconds()
+			time.Sleep(5 * time.Millisecond)
+			continue
+		}
+		if time.Since(tHandler) > c.settle {
 			sort.Strings(leaked)
 			o.Leaked, o.OpenRows = leaked, open
 			for id := range now {
